@@ -16,6 +16,11 @@ THEOREMS = [
     "Cog.Sem.C01_pass_widening_counterexample",
     "Cog.Sem.C01_pass_widening_struct_partial", "Cog.Sem.C01_source_roundtrip_struct_partial",
     "Cog.Sem.Src.widen_chainS", "Cog.Sem.Src.as_widen",
+    # (b) parser soundness of the JSON Schema front-end on FragJS, and the composition (c01-front builder)
+    "Cog.Sem.C01_jsonschema_parser_sound_partial", "Cog.Sem.C01_jsonschema_parser_sound_fuel_partial",
+    "Cog.Sem.C01_jsonschema_end_to_end_partial", "Cog.Sem.C01_jsonschema_parser_sound_counterexample",
+    "Cog.Front.JsonSchema.parser_sound", "Cog.Front.JsonSchema.sound_core", "Cog.Front.JsonSchema.frontEnd_spec",
+    "Cog.Front.JsonSchema.walkDefinition_spec", "Cog.Front.JsonSchema.view_of",
 ]
 
 
@@ -176,6 +181,134 @@ def pass_widening_tie(c, hb):
 # ---- END pass widening tie -----------------------------------------------------------------------
 
 
+# ---- BEGIN parser soundness tie (c01-front stream; owner: c01-front builder) -----------------------
+def parser_soundness_tie(c, hb):
+    """(1) model of the JSON Schema front-end = real GenerateAST (VIR-equal, ok/err class);
+       (2) jsValid = the library's own validator on every document of every fully modelled case;
+       (3) FragJS ∧ wfDeep ∧ jsValidX ⇒ srcDen evaluated on the REAL front-end IR (instance of
+           C01_jsonschema_parser_sound_fuel_partial) and on the model's IR;
+       (4) the witness of C01_jsonschema_parser_sound_counterexample replays on the real front-end."""
+    quick = c.tier == "quick"
+    n, docs, faults = (150, 10, 6) if quick else (1500, 14, 8)
+    try:
+        rows = harness(hb, "c01-front", n=n, docs=docs, faults=faults, seed=c.seed, timeout=3600)
+    except (RuntimeError, subprocess.TimeoutExpired) as e:
+        c.oblige("c01-front stream runs", False, str(e)[-1500:])
+        return
+    reqs = [r[0] for r in rows if r[0] != "-"]
+    replies = drv(reqs)
+    it = iter(replies)
+    st = {"cases": 0, "front_ok_agree": 0, "front_err_agree": 0, "documents": 0, "valid": 0, "invalid": 0,
+          "modelled_documents": 0, "unmodelled_documents": 0, "frag_cases": 0, "frag_documents": 0, "frag_valid": 0,
+          "frag_strict_wf": 0, "frag_strict_wf_in_srcDen_real": 0, "frag_valid_not_strict": 0, "bad_replies": 0, "skipped": {}}
+    kinds, notfrag, case_line, jsdef = {}, {}, {}, {}
+    front_bad, valid_bad, inst_bad, minst_bad, strict_bad, oracle_bad, witness = [], [], [], [], [], [], []
+    seen = set()
+    for r in rows:
+        if r[0] == "-":
+            w = r[1].split(" ")
+            if w[0] == "case":
+                case_line[w[1]] = r[1]
+                st["cases"] += 1
+                kinds[w[2]] = kinds.get(w[2], 0) + 1
+            elif w[0] == "skip":
+                st["skipped"][w[2]] = st["skipped"].get(w[2], 0) + 1
+            if len(r) > 2 and r[2] != "ok":
+                oracle_bad.append((r, ""))
+            continue
+        m = next(it)
+        verb, cid = r[0].split(" ")[0], r[0].split(" ")[1]
+        if verb == "jsfdef":
+            jsdef[cid] = r[0]
+        if verb in ("jsfdef", "defschemas"):
+            if m != "ok":
+                st["bad_replies"] += 1
+            continue
+        if verb == "jsfront":
+            if r[2] != "ok":
+                oracle_bad.append((r, m))
+            if m == r[1]:
+                st["front_ok_agree" if m.startswith("ok") else "front_err_agree"] += 1
+            else:
+                front_bad.append((r, m))
+            continue
+        if verb != "jsfdoc":
+            continue
+        if r[2] != "ok":
+            oracle_bad.append((r, m))
+        if not m.startswith("valid="):
+            st["bad_replies"] += 1
+            continue
+        d = dict(kv.split("=", 1) for kv in m.split(" "))
+        valid = "valid=true" in r[1]
+        st["documents"] += 1
+        st["valid" if valid else "invalid"] += 1
+        if cid not in seen:
+            seen.add(cid)
+            notfrag[d["notfrag"]] = notfrag.get(d["notfrag"], 0) + 1
+            st["frag_cases"] += int(d["frag"] == "true")
+        if d["modelled"] == "true":
+            st["modelled_documents"] += 1
+            if (d["valid"] == "true") != valid:
+                valid_bad.append((r, m))
+        else:
+            st["unmodelled_documents"] += 1
+            if valid and d["valid"] != "true":      # unmodelled keywords only add constraints: real-valid ⇒ jsValid
+                valid_bad.append((r, m))
+        if d["strict"] == "true" and d["valid"] != "true":
+            strict_bad.append((r, m))
+        if d["frag"] == "true":
+            st["frag_documents"] += 1
+            st["frag_valid"] += int(valid)
+            if d["strict"] == "true" and d["wf"] == "true":
+                st["frag_strict_wf"] += 1
+                if d["src"] == "true":
+                    st["frag_strict_wf_in_srcDen_real"] += 1
+                else:
+                    inst_bad.append((r, m))
+                if d["msrc"] != "true":
+                    minst_bad.append((r, m))
+            elif valid:
+                st["frag_valid_not_strict"] += 1
+        if cid == "pinint64" and r[0].endswith('(n "9223372036854775808")'):
+            witness.append((r, m, valid and d["frag"] == "true" and d["valid"] == "true" and d["strict"] == "false" and d["src"] == "false" and d["msrc"] == "false"))
+    def payload(kind, broken, r, m):
+        cid = r[0].split(" ")[1] if r[0] != "-" else r[1].split(" ")[2]
+        return {"kind": kind, "broken": broken, "stream": "c01-front", "request": r[0][:6000], "implementation": r[1][:6000], "oracle": (r[2] if len(r) > 2 else "")[:600],
+                "driver": m[:6000], "case": case_line.get(cid, "")[:6000], "compiled_schema": jsdef.get(cid, "")[:8000],
+                "how_to_replay": "harness c01-front seed=%d n=%d docs=%d faults=%d, case %s (pinned / testdata cases do not depend on the seed)" % (c.seed, n, docs, faults, cid)}
+    for r, m in front_bad[:3]:
+        c.violation(payload("front-end-model-disagrees", "the Lean model `generateAST` and the real internal/jsonschema GenerateAST build different IR (VIR text) or differ in ok/err for this schema: the model no longer describes the code", r, m))
+    for r, m in oracle_bad[:3]:
+        c.violation(payload("front-end-oracle", "implementation-side oracle of the c01-front stream failed (GenerateAST panicked, succeeded on a schema the library refuses, or the two reference validators disagree)", r, m))
+    for r, m in valid_bad[:3]:
+        c.violation(payload("jsValid-disagrees-with-validator", "the Lean validation semantics `jsValid` and santhosh-tekuri's Schema.Validate disagree on this document", r, m))
+    for r, m in strict_bad[:3]:
+        c.violation(payload("strict-not-valid", "jsValidX holds but jsValid does not", r, m))
+    for r, m in inst_bad[:3]:
+        c.violation(payload("parser-soundness-instance-fails-on-real-IR", "C01_jsonschema_parser_sound_fuel_partial: FragJS ∧ wfDeep ∧ jsValidX hold but the document is not in `srcDen` of the REAL front-end IR", r, m))
+    for r, m in minst_bad[:3]:
+        c.violation(payload("parser-soundness-instance-fails-on-model", "C01_jsonschema_parser_sound_fuel_partial evaluated by the driver on the MODEL's IR is false", r, m), found_input=False)
+    ncases = st["front_ok_agree"] + st["front_err_agree"] + len(front_bad)
+    c.oblige("c01-front (1): model of the JSON Schema front-end = real GenerateAST, VIR-equal (%d schemas: %d ok, %d err; kinds %s)" % (ncases, st["front_ok_agree"], st["front_err_agree"], kinds), not front_bad and not oracle_bad and st["bad_replies"] == 0,
+             "disagreements %d, oracle failures %d, bad driver replies %d" % (len(front_bad), len(oracle_bad), st["bad_replies"]))
+    c.oblige("c01-front (2): jsValid = the library's validator on every document of every fully modelled schema (%d documents, %d of them invalid); real-valid ⇒ jsValid on the %d others; jsValidX ⇒ jsValid" % (st["modelled_documents"], st["invalid"], st["unmodelled_documents"]), not valid_bad and not strict_bad)
+    c.oblige("c01-front (3): FragJS ∧ wfDeep ∧ jsValidX ⇒ srcDen on the REAL front-end IR and on the model's (%d documents of %d schemas in FragJS)" % (st["frag_strict_wf"], st["frag_cases"]), not inst_bad and not minst_bad)
+    c.oblige("witness of C01_jsonschema_parser_sound_counterexample replays on the real front-end (2^63 is valid against {type: integer}, in FragJS, not strictly valid, not in srcDen of the real IR)",
+             len(witness) == 1 and all(w[2] for w in witness), [(w[0][1], w[1]) for w in witness] or "pinned row missing")
+    c.oblige("c01-front is not vacuous (schemas, schemas in FragJS, strictly valid documents of the fragment, invalid documents, err schemas)",
+             ncases >= 100 and st["frag_cases"] >= 30 and st["frag_strict_wf"] >= 300 and st["invalid"] >= 300 and st["front_err_agree"] >= 3,
+             "schemas %d, in FragJS %d, strict documents %d, invalid %d, err schemas %d" % (ncases, st["frag_cases"], st["frag_strict_wf"], st["invalid"], st["front_err_agree"]))
+    c.count("c01-front", len(rows), [r[0] for r in rows if r[0].startswith("jsfdoc ") and r[0].count("(") >= 6],
+            samples=[{"stream": "c01-front", "request": r[0][:400], "impl": r[1][:200], "oracle": "ok"} for r in rows if r[0].startswith("jsfdoc ")][:2])
+    c.cov["disagreements_checked"] += ncases + st["documents"] + st["frag_strict_wf"]
+    c.cov["parser_soundness"] = dict(st, not_in_FragJS_first_construct=notfrag, schema_kinds=kinds,
+                                     keywords=[r[1] for r in rows if r[0] == "-" and r[1].startswith("stats keywords")][:1],
+                                     rate_fragment="%d/%d schemas" % (st["frag_cases"], len(seen)),
+                                     rate_instance="%d/%d" % (st["frag_strict_wf_in_srcDen_real"], st["frag_strict_wf"]))
+# ---- END parser soundness tie --------------------------------------------------------------------
+
+
 def main():
     c = Check("C01")
     c.trusted = [
@@ -186,7 +319,7 @@ def main():
         "source side: documents are drawn from the Src grammar and checked against the schema language's own validator (santhosh-tekuri/jsonschema, kin-openapi, cuelang) before use; encoding/json, the Go toolchain and those validators are trusted",
         "numbers restricted to integers and multiples of 0.25; date-time strings treated as opaque canonical RFC 3339 text",
     ]
-    hb, err = build_go("verifharness", "harness", files=HARNESS_BASE + ["lab_*.go", "src_*.go", "c01.go", "c01_src.go"], tag="c01")
+    hb, err = build_go("verifharness", "harness", files=HARNESS_BASE + ["lab_*.go", "src_*.go", "c01.go", "c01_src.go", "c01_front.go"], tag="c01")
     c.oblige("harness builds against /repo working tree", hb is not None, err)
     # (c) pass widening speaks about the Go chain the code runs: regenerate Cog/Gen/Chains.lean (C06's extractor)
     try:
@@ -247,6 +380,7 @@ def main():
     c.cov["model"] = STATS
     c.cov["lab"] = [r[1] for r in rows if r[0] == "-" and r[1].startswith("stats")][:1]
     pass_widening_tie(c, hb)   # (c) pass widening: additional obligations + evidence counts
+    parser_soundness_tie(c, hb)   # (b) parser soundness (JSON Schema): additional obligations + evidence counts
     c.finish("cd /verif/lean && lake build Cog.Props.C01 drv && lake env lean <#print axioms of the C01 theorems>",
              "Src terms (every construct of the grammar) rendered to JSON Schema, OpenAPI and CUE, real pipeline run, generated Go compiled; per case ~30 source-valid documents (reference-validated) decoded with the standard and the strict decoder and re-encoded; oracle = the property; Lean model `godec` must predict the re-encoded JSON; non-trivial = document with >= 6 nested values")
 
